@@ -152,6 +152,8 @@ pub fn check_one_src(
             && cfg & TRIM_END != 0
             && cfg & TRIM_START == 0
             && cur.get(i).map(|o| &o.ev) == Some(&Ev::Text(Vec::new()))
+            // the finding is about blank-only text *in front of markup*; at the end of the input such text is dropped
+            && cur.get(i).map_or(false, |o| (o.pos as usize) < s.len())
         {
             cur.remove(i);
             if !used.contains(&"F7") {
